@@ -262,6 +262,47 @@ pub fn prop(tier: Tier, seed: u64) -> Prop {
         ctx.nontrivial += masks.len() as u64;
     }));
 
+    // ---- cropped down-scales: the crop leaves many source pixels on both sides, and the kernel
+    //      (radius = support x scale) reaches beyond the crop box into them
+    let big: Vec<(u32, u32, u32)> = vec![(12, 4, 4), (16, 5, 6), (24, 8, 8), (24, 7, 10), (33, 11, 11), (20, 3, 12)];
+    let algs3: Vec<Alg> = vec![Alg::Conv(F::Bilinear), Alg::Conv(F::CatmullRom), Alg::Conv(F::Lanczos3), Alg::Conv(F::Gaussian), Alg::SS(F::Bilinear, 1), Alg::SS(F::Lanczos3, 2), Alg::Interp(F::Mitchell)];
+    let dims3 = vec![big.len() as u64, 4, algs3.len() as u64];
+    let (d3, a3, b3v) = (dims3.clone(), algs3.clone(), bes.clone());
+    p.spaces.push(Space::new("cropped down-scales: crop boxes with wide margins on both sides x n_out 1..4 x 7 algorithms (structured alpha masks, both orientations and 2-D)", product(&dims3), move |idx, ctx| {
+        let mut d = [0usize; 3];
+        decode(idx, &d3, &mut d);
+        let (n_in, start, len) = big[d[0]];
+        let n_out = d[1] as u32 + 1;
+        let alg = a3[d[2]];
+        let crop = Crop1 { start: start as f64, len: len as f64 };
+        ctx.sample(|| json!({"n_in": n_in, "crop": [start, len], "n_out": n_out, "alg": format!("{:?}", alg)}));
+        // structured masks over n_in positions
+        let masks: Vec<Vec<u8>> = (0..24usize).map(|k| (0..n_in as usize).map(|i| match k % 6 { 0 => if (i + k / 6) % 2 == 0 { 0 } else { 2 }, 1 => if i == (k * 5) % n_in as usize { 0 } else { 2 }, 2 => if i < (k / 6 + 1) * 3 { 0 } else { 2 }, 3 => if i >= n_in as usize - (k / 6 + 1) * 3 { 0 } else { 2 }, 4 => [0u8, 1, 2][(i + k) % 3], _ => 2 }).collect()).collect();
+        for (pi, pt) in ALPHA_PT.iter().copied().enumerate() {
+            let be = b3v[(pi + idx as usize) % b3v.len()];
+            // horizontal: rows are masks
+            let mut o = Opts::new(alg);
+            o.cx = Some(crop);
+            check_map(ctx, pt, be, &masks, n_out, masks.len() as u32, &o, seed, "cropped 1-D horizontal");
+            check_opaque(ctx, pt, be, n_in, 3, n_out, 3, &o, seed);
+            // vertical: columns are masks
+            let t: Vec<Vec<u8>> = (0..n_in as usize).map(|y| masks.iter().map(|m| m[y]).collect()).collect();
+            let mut o = Opts::new(alg);
+            o.cy = Some(crop);
+            check_map(ctx, pt, be, &t, masks.len() as u32, n_out, &o, seed, "cropped 1-D vertical");
+            check_opaque(ctx, pt, be, 3, n_in, 3, n_out, &o, seed);
+            // 2-D: both axes cropped and scaled
+            let mut o = Opts::new(alg);
+            o.cx = Some(Crop1 { start: 1.0, len: 6.0 });
+            o.cy = Some(crop);
+            let lv: Vec<Vec<u8>> = (0..n_in as usize).map(|y| (0..8usize).map(|x| masks[(x + y) % masks.len()][y]).collect()).collect();
+            check_map(ctx, pt, be, &lv, 3, n_out, &o, seed, "cropped 2-D");
+            check_opaque(ctx, pt, be, 8, n_in, 3, n_out, &o, seed);
+            ctx.class(mix(mix(pt.idx() as u64 + 80, be as u64), mix(d[0] as u64, d[1] as u64 * 8 + d[2] as u64)));
+        }
+        ctx.nontrivial += masks.len() as u64;
+    }));
+
     // ---- 2-D incl. SuperSampling
     let m: u32 = tier.pick(3, 4);
     let mut algs2: Vec<Alg> = vec![];
